@@ -269,3 +269,53 @@ def c07_4(cx):
         o = qb.origin_local(0)
         cx.flow(qb, o, [r"generation: id::Id::generation\(key::DatabaseKeyIndex::key_index\(\$1\)\)"], [r"generation: const:"], "QueryEdge::%s copies the key's generation" % name)
         cx.flow(qb, o, [r"index: id::Id::index\(key::DatabaseKeyIndex::key_index\(\$1\)\)"], [r"index: const:"], "QueryEdge::%s copies the key's slot index" % name)
+
+
+@ob("C07.5", ["C07", "C23", "C01"], "the read lock (updated_at := current revision) is what forbids deleting / recycling a tracked struct while a reader of this revision may hold references into it; a field or memo-table access that skips it races with delete_entity and slot reuse", kind="ORDER+FLOW (every reader takes the read lock first)")
+def c07_5(cx):
+    """tracked_field / untracked_field obtain the fields only through lock_fields(data of the id asked, current_revision); lock_fields calls acquire_read_lock(&data.updated_at, current_revision) before it exposes &data.fields; Slot::memos takes the read lock before handing out the memo table; tracked_field reads the field stamp and durability after the lock."""
+    lf = cx.fn(TS + r"lock_fields$")
+    al = cx.one_call(lf, r"^tracked_struct::acquire_read_lock$", "acquire_read_lock in lock_fields")
+    cx.check(cx.facts.must_call(lf, r"^tracked_struct::acquire_read_lock$"), "lock_fields takes the read lock on every path", al, key="lock-always")
+    a = cx.args(al)
+    cx.flow(lf, a[0], [r"^\$2\.updated_at$"], [], "on the lock word of the struct whose fields are exposed", al)
+    cx.flow(lf, a[1], [r"^\$3$"], [r"^const:", r"Revision::start"], "for the revision given", al)
+    cx.flow(lf, lf.origin_local(0), [r"^transmute\(\$2\.fields\)$"], [], "and exposes that struct's fields")
+    for name in ("tracked_field", "untracked_field"):
+        b = cx.fn(TS + name + r"$")
+        c = cx.one_call(b, TS + r"lock_fields$", "lock_fields in " + name)
+        ca = cx.args(c)
+        cx.flow(b, ca[1], [r"^tracked_struct::IngredientImpl::<C>::data_raw\(zalsa::Zalsa::table\(\$2\), <.* as id::AsId>::as_id\(\$[34]\)\)$"], [], "%s locks the slot of the struct asked" % name, c)
+        cx.flow(b, ca[2], [r"^zalsa::Zalsa::current_revision\(\$2\)$"], [r"^const:", r"Revision::start"], "%s locks for the current revision" % name, c)
+        cx.flow(b, b.origin_local(0), [r"^tracked_struct::IngredientImpl::<C>::lock_fields\("], [r"\.fields\)?$"], "%s returns the fields obtained under the lock" % name)
+    t = cx.fn(TS + r"tracked_field$")
+    c = cx.one_call(t, TS + r"lock_fields$", "lock_fields in tracked_field")
+    rep = cx.one_call(t, r"^zalsa_local::ZalsaLocal::report_tracked_read_simple$", "read report in tracked_field")
+    cx.order(c, rep, "the field stamp and durability are read (and reported) after the read lock was taken")
+    sm = cx.fn(r"^<tracked_struct::Value<C> as table::Slot>::memos$")
+    al2 = cx.one_call(sm, r"^tracked_struct::acquire_read_lock$", "acquire_read_lock in Slot::memos")
+    cx.check(cx.facts.must_call(sm, r"^tracked_struct::acquire_read_lock$"), "the memo table of a tracked struct is handed out only under the read lock", al2, key="memos-locked")
+    cx.flow(sm, cx.arg(al2, 1), [r"^\$2$"], [r"^const:"], "for the revision given", al2)
+    # no other body reads `.fields` of a tracked Value without a lock / &mut / the write lock of update
+    n = 0
+    for b in cx.facts.all_bodies():
+        if not b.file.endswith("tracked_struct.rs") or "persistence" in b.path or "test" in b.path:
+            continue
+        for s in b.all_sites():
+            if s.is_term():
+                continue
+            nd = s.node()
+            if nd["k"] != "assign" or nd["rv"]["k"] not in ("ref", "addr", "use"):
+                continue
+            try:
+                o = b._origin_def(s, "assign", nd, 0, None, ())
+            except Exception:
+                continue
+            if not re.search(r"data_raw\(.*\)\.fields$|^\$\d+\.fields$", o):
+                continue
+            if "Value" not in " ".join(b.info.get("inputs", [])) and "data_raw" not in o:
+                continue
+            n += 1
+            ok = bool(re.search(r"::(lock_fields|update|allocate|new_struct|memory_usage|fields|leak_fields)$|Serialize|Deserialize|heap_size|Slot>::|drop", b.path))
+            cx.check(ok, "the fields of a tracked struct are touched only by lock_fields (read lock), update (write lock) or whole-value code", s, {"origin": o[:120]}, key="fields-access " + b.path)
+    cx.note("field-access census: %d sites" % n)
